@@ -1,31 +1,58 @@
-// -Wl,--wrap seam for the pthread calls made by statically linked votca
-// objects (tools::Thread, tools::Mutex).  Inside a simulated run every thread is
-// a task and every mutex is one bit plus waiters; outside a run the calls go to
-// the real library.
+// Seam for all pthread calls of the process: the harness executable DEFINES the pthread entry points, so
+// that calls from statically linked votca objects (tools::Thread, tools::Mutex, or std::mutex / std::thread /
+// std::condition_variable if the code is ever modernised) and calls made by libstdc++.so on their behalf bind
+// here.  Inside a simulated run every thread is a task, every mutex one bit plus waiters, every condition
+// variable a waiter set; outside a run the calls go to glibc.
 #include "core/sim.h"
 #include "core/wrap_pthread.h"
 
+#include <cerrno>
+#include <dlfcn.h>
 #include <pthread.h>
 #include <unordered_map>
 #include <vector>
 
-extern "C" {
-int __real_pthread_create(pthread_t *, const pthread_attr_t *, void *(*)(void *), void *);
-int __real_pthread_join(pthread_t, void **);
-void __real_pthread_exit(void *) __attribute__((noreturn));
-int __real_pthread_mutex_init(pthread_mutex_t *, const pthread_mutexattr_t *);
-int __real_pthread_mutex_destroy(pthread_mutex_t *);
-int __real_pthread_mutex_lock(pthread_mutex_t *);
-int __real_pthread_mutex_unlock(pthread_mutex_t *);
-int __real_pthread_mutex_trylock(pthread_mutex_t *);
-pthread_t __real_pthread_self(void);
+namespace {
+template <class F> F real_sym(const char *name, const char *version = nullptr) {
+  void *p = version ? dlvsym(RTLD_NEXT, name, version) : nullptr;
+  if (!p) p = dlsym(RTLD_NEXT, name);
+  if (!p) sim::harness_error("cannot resolve the real %s", name);
+  return (F)p;
 }
+#define REAL(ret, name, version, ...)                        \
+  typedef ret (*name##_fn)(__VA_ARGS__);                     \
+  static name##_fn real_##name() {                           \
+    static name##_fn f = real_sym<name##_fn>(#name, version); \
+    return f;                                                \
+  }
+REAL(int, pthread_mutex_init, nullptr, pthread_mutex_t *, const pthread_mutexattr_t *)
+REAL(int, pthread_mutex_destroy, nullptr, pthread_mutex_t *)
+REAL(int, pthread_mutex_lock, nullptr, pthread_mutex_t *)
+REAL(int, pthread_mutex_unlock, nullptr, pthread_mutex_t *)
+REAL(int, pthread_mutex_trylock, nullptr, pthread_mutex_t *)
+REAL(int, pthread_once, nullptr, pthread_once_t *, void (*)(void))
+REAL(int, pthread_create, nullptr, pthread_t *, const pthread_attr_t *, void *(*)(void *), void *)
+REAL(int, pthread_join, nullptr, pthread_t, void **)
+REAL(int, pthread_detach, nullptr, pthread_t)
+REAL(void, pthread_exit, nullptr, void *)
+REAL(pthread_t, pthread_self, nullptr, void)
+REAL(int, pthread_cond_init, "GLIBC_2.3.2", pthread_cond_t *, const pthread_condattr_t *)
+REAL(int, pthread_cond_destroy, "GLIBC_2.3.2", pthread_cond_t *)
+REAL(int, pthread_cond_wait, "GLIBC_2.3.2", pthread_cond_t *, pthread_mutex_t *)
+REAL(int, pthread_cond_timedwait, "GLIBC_2.3.2", pthread_cond_t *, pthread_mutex_t *, const struct timespec *)
+REAL(int, pthread_cond_signal, "GLIBC_2.3.2", pthread_cond_t *)
+REAL(int, pthread_cond_broadcast, "GLIBC_2.3.2", pthread_cond_t *)
+}  // namespace
 
 namespace sim {
 
 struct MutexState { long index; bool locked; int owner; };
 static std::unordered_map<void *, MutexState> g_mutexes;  // never iterated
 static long g_next_mutex = 0;
+struct OnceState { int state; int runner; };  // 0 not run, 1 running, 2 done
+static std::unordered_map<void *, OnceState> g_onces;
+static std::unordered_map<void *, long> g_conds;  // address -> index
+static long g_next_cond = 0;
 static std::vector<int> g_held;  // per task
 static void held_add(int task, int d) {
   if (task < 0) return;
@@ -40,6 +67,9 @@ static MutexObserver g_mobs;
 
 void pthread_layer_reset() {
   g_mutexes.clear();
+  g_onces.clear();
+  g_conds.clear();
+  g_next_cond = 0;
   g_held.assign(64, 0);
   g_next_mutex = 0;
   g_obsv = MutexObs();
@@ -60,8 +90,8 @@ using namespace sim;
 
 extern "C" {
 
-int __wrap_pthread_create(pthread_t *th, const pthread_attr_t *attr, void *(*fn)(void *), void *arg) {
-  if (!active()) return __real_pthread_create(th, attr, fn, arg);
+int pthread_create(pthread_t *th, const pthread_attr_t *attr, void *(*fn)(void *), void *arg) {
+  if (!active()) return real_pthread_create()(th, attr, fn, arg);
   sim::Harness harness_scope;
   int id = spawn_task([fn, arg] { fn(arg); }, self_proc(), "thread");
   *th = (pthread_t)(id + 1);
@@ -71,13 +101,13 @@ int __wrap_pthread_create(pthread_t *th, const pthread_attr_t *attr, void *(*fn)
 }
 
 // all tasks share one OS thread: code that asks who it is must see its task, not the OS thread
-pthread_t __wrap_pthread_self(void) {
-  if (!active()) return __real_pthread_self();
+pthread_t pthread_self(void) {
+  if (!active()) return real_pthread_self()();
   return (pthread_t)(self() + 1);
 }
 
-int __wrap_pthread_join(pthread_t th, void **ret) {
-  if (!active()) return __real_pthread_join(th, ret);
+int pthread_join(pthread_t th, void **ret) {
+  if (!active()) return real_pthread_join()(th, ret);
   sim::Harness harness_scope;
   int id = (int)th - 1;
   if (id < 0 || id >= n_tasks()) return 3;  // ESRCH
@@ -86,22 +116,23 @@ int __wrap_pthread_join(pthread_t th, void **ret) {
   return 0;
 }
 
-void __wrap_pthread_exit(void *r) {
-  if (!active()) __real_pthread_exit(r);
+void pthread_exit(void *r) {
+  if (!active()) { real_pthread_exit()(r); __builtin_unreachable(); }
   exit_task();
 }
 
-int __wrap_pthread_mutex_init(pthread_mutex_t *m, const pthread_mutexattr_t *a) {
-  if (!active()) return __real_pthread_mutex_init(m, a);
+int pthread_mutex_init(pthread_mutex_t *m, const pthread_mutexattr_t *a) {
+  if (!active()) return real_pthread_mutex_init()(m, a);
   sim::Harness harness_scope;
+  real_pthread_mutex_init()(m, a);  // keep the object valid for any use outside the simulation
   g_mutexes.erase(m);
   MutexState &s = mstate(m);
   event(K_MINIT, s.index, 0);
   return 0;
 }
 
-int __wrap_pthread_mutex_destroy(pthread_mutex_t *m) {
-  if (!active()) return __real_pthread_mutex_destroy(m);
+int pthread_mutex_destroy(pthread_mutex_t *m) {
+  if (!active()) return real_pthread_mutex_destroy()(m);
   sim::Harness harness_scope;
   auto it = g_mutexes.find(m);
   if (it != g_mutexes.end()) {
@@ -112,8 +143,8 @@ int __wrap_pthread_mutex_destroy(pthread_mutex_t *m) {
   return 0;
 }
 
-int __wrap_pthread_mutex_lock(pthread_mutex_t *m) {
-  if (!active()) return __real_pthread_mutex_lock(m);
+int pthread_mutex_lock(pthread_mutex_t *m) {
+  if (!active()) return real_pthread_mutex_lock()(m);
   sim::Harness harness_scope;
   long idx = mstate(m).index;
   if (g_mobs) g_mobs(0, idx, self());
@@ -134,8 +165,8 @@ int __wrap_pthread_mutex_lock(pthread_mutex_t *m) {
   return 0;
 }
 
-int __wrap_pthread_mutex_trylock(pthread_mutex_t *m) {
-  if (!active()) return __real_pthread_mutex_trylock(m);
+int pthread_mutex_trylock(pthread_mutex_t *m) {
+  if (!active()) return real_pthread_mutex_trylock()(m);
   sim::Harness harness_scope;
   long idx = mstate(m).index;
   point(K_MLOCK, idx);
@@ -149,8 +180,8 @@ int __wrap_pthread_mutex_trylock(pthread_mutex_t *m) {
   return 0;
 }
 
-int __wrap_pthread_mutex_unlock(pthread_mutex_t *m) {
-  if (!active()) return __real_pthread_mutex_unlock(m);
+int pthread_mutex_unlock(pthread_mutex_t *m) {
+  if (!active()) return real_pthread_mutex_unlock()(m);
   sim::Harness harness_scope;
   MutexState &s = mstate(m);
   long idx = s.index;
@@ -165,6 +196,96 @@ int __wrap_pthread_mutex_unlock(pthread_mutex_t *m) {
   event(K_MUNLOCK, idx, 0);
   wake(K_MLOCK, idx);
   point(K_MUNLOCK, idx);
+  return 0;
+}
+
+int pthread_detach(pthread_t th) {
+  if (!active()) return real_pthread_detach()(th);
+  return 0;  // a detached task simply is never joined
+}
+
+// std::call_once and function-local statics of libstdc++ use pthread_once: the initialiser may be pre-empted
+// (allocation point), a second caller must then wait in the simulator, not in a futex
+int pthread_once(pthread_once_t *once, void (*fn)(void)) {
+  if (!active()) return real_pthread_once()(once, fn);
+  sim::Harness harness_scope;
+  for (;;) {
+    auto it = g_onces.find(once);
+    if (it == g_onces.end()) {
+      if (*once != PTHREAD_ONCE_INIT) return 0;  // completed outside the simulation
+      it = g_onces.emplace(once, OnceState{0, -1}).first;
+    }
+    if (it->second.state == 2) return 0;
+    if (it->second.state == 0) {
+      it->second.state = 1;
+      it->second.runner = self();
+      fn();  // may contain decision points; allocation points stay off inside an initialiser
+      g_onces[once].state = 2;
+      *once = 2;  // glibc's "done" value, so that a later real pthread_once returns at once
+      wake(K_GATE, (long)(0x40000000 + ((long)(size_t)once & 0xffffff)));
+      return 0;
+    }
+    block_on(K_GATE, (long)(0x40000000 + ((long)(size_t)once & 0xffffff)));
+  }
+}
+
+static long cond_index(pthread_cond_t *c) {
+  auto it = g_conds.find(c);
+  if (it == g_conds.end()) it = g_conds.emplace(c, g_next_cond++).first;
+  return it->second;
+}
+
+int pthread_cond_init(pthread_cond_t *c, const pthread_condattr_t *a) {
+  if (!active()) return real_pthread_cond_init()(c, a);
+  sim::Harness harness_scope;
+  g_conds.erase(c);
+  cond_index(c);
+  return 0;
+}
+
+int pthread_cond_destroy(pthread_cond_t *c) {
+  if (!active()) return real_pthread_cond_destroy()(c);
+  sim::Harness harness_scope;
+  g_conds.erase(c);
+  return 0;
+}
+
+static int sim_cond_wait(pthread_cond_t *c, pthread_mutex_t *m, bool timed) {
+  sim::Harness harness_scope;
+  long ci = cond_index(c);
+  // atomically release the mutex and wait; a timed wait may also return by "timeout" (spurious wake-ups are legal anyway)
+  pthread_mutex_unlock(m);
+  if (!timed) block_on(K_GATE, 0x20000000 + ci);
+  else point(K_GATE, 0x20000000 + ci);
+  pthread_mutex_lock(m);
+  return timed ? ETIMEDOUT : 0;
+}
+
+int pthread_cond_wait(pthread_cond_t *c, pthread_mutex_t *m) {
+  if (!active()) return real_pthread_cond_wait()(c, m);
+  return sim_cond_wait(c, m, false);
+}
+
+int pthread_cond_timedwait(pthread_cond_t *c, pthread_mutex_t *m, const struct timespec *ts) {
+  if (!active()) return real_pthread_cond_timedwait()(c, m, ts);
+  return sim_cond_wait(c, m, true);
+}
+
+int pthread_cond_signal(pthread_cond_t *c) {
+  if (!active()) return real_pthread_cond_signal()(c);
+  sim::Harness harness_scope;
+  long ci = cond_index(c);
+  wake(K_GATE, 0x20000000 + ci);  // waking all waiters is a legal behaviour of signal (spurious wake-ups)
+  point(K_GATE, 0x20000000 + ci);
+  return 0;
+}
+
+int pthread_cond_broadcast(pthread_cond_t *c) {
+  if (!active()) return real_pthread_cond_broadcast()(c);
+  sim::Harness harness_scope;
+  long ci = cond_index(c);
+  wake(K_GATE, 0x20000000 + ci);
+  point(K_GATE, 0x20000000 + ci);
   return 0;
 }
 }
